@@ -40,6 +40,16 @@ func (r *Rand) aliasKey(pool [][]byte) []byte {
 // shape: "mss" flat object of strings, "ss" array of strings, "any" nested mix
 func (r *Rand) aliasDoc(shape string, keys [][]byte, depth int) *V {
 	switch shape {
+	case "mms", "mas":
+		// an object of objects / arrays of strings with keys from a small pool (so that keys REPEAT
+		// within one document): for map[string]map[string]string / map[string][]string targets the
+		// unfolder handles the outer map by reflection, and a repeated key finds its entry present
+		v := &V{K: VObj}
+		for i := 0; i < 2+r.Intn(5); i++ {
+			v.Keys = append(v.Keys, r.aliasKey(keys))
+			v.Arr = append(v.Arr, r.aliasDoc(map[string]string{"mms": "mss", "mas": "ss"}[shape], keys, depth+1))
+		}
+		return v
 	case "mss":
 		v := &V{K: VObj}
 		for i := 0; i < 1+r.Intn(6); i++ {
@@ -76,8 +86,9 @@ func genAlias(r *Rand, tier string, emit func(string)) {
 	n := tierN(tier, 500, 8000)
 	for _, f := range ModelledFormats {
 		for i := 0; i < n; i++ {
-			shape := Pick(r, []string{"mss", "ss", "any", "any"})
-			target := map[string][]string{"mss": {"map:string", "map:any", "any"}, "ss": {"[]string", "[]any", "any"}, "any": {"any"}}[shape]
+			shape := Pick(r, []string{"mss", "ss", "any", "any", "mms", "mas"})
+			target := map[string][]string{"mss": {"map:string", "map:any", "any"}, "ss": {"[]string", "[]any", "any"}, "any": {"any"},
+				"mms": {"map:map:string", "map:map:string", "map:any"}, "mas": {"map:[]string", "map:[]string", "map:[]any"}}[shape]
 			var keys [][]byte
 			for k := 0; k < 3; k++ {
 				keys = append(keys, r.aliasKey(nil))
